@@ -10,6 +10,7 @@ The tie to the Go code is trace validation: every event sequence observed from t
 under the harness' controlled schedules must be accepted by `validTrace`, and `validTrace_sound` says the
 accepted sequences are traces of the transition system the theorems are about.
 -/
+import BtcVerif.Props.GuardPins.P_blockscan
 import BtcVerif.Proofs.StreamOrdered
 import BtcVerif.Proofs.StreamUnordered
 import BtcVerif.Proofs.StreamVariant
